@@ -374,4 +374,36 @@ theorem dropGroup_generated (o : Op) (l : Eqn) (po : Option Op) :
   unfold dropGroup
   cases po <;> cases l.op? <;> simp [JpParens.reduceGroupsCmp, cmpEval]
 
+/-! ## (d) `Expr.Append` and the fragments it dispatches to -/
+
+/-- pins `Frag.printL` (Print.lean) and `bprintL` (Bracket.lean), and the `.descent`, `.wild`, `.child`
+branches of `Frag.print` / `childPrint`: `Expr.Append` starts in bracket notation iff asked to; in the loop a
+`Bracket` flag only switches `bracket` on (`continue`: `afterDescent` stays as it is), the second dot of a
+descent is written under `afterDescent` alone, a fragment is "first" when `i == 0 || afterDescent`, and
+`afterDescent` is set from the fragment just written and the notation it was written in
+(`afterDescent && !bracket`); a last descent gets its second dot after the loop. `Descent.Append` writes `[..]`
+or one `.`, `Bracket.Append` nothing, `Wildcard.Append` `[*]` (bracket notation or `'#'`) or `*` after a dot
+unless first, `Child.Append` the quoted form (bracket notation or not a token) or the key after a dot unless
+first. (Site of the seeded change C14-m7.) -/
+theorem expr_append_pinned :
+    JpParens.exprAppendBody = ["bracket := 0 < len(brackets) && brackets[0]", "afterDescent := false",
+      "for i, frag := range x { if _, ok := frag.(Bracket); ok { bracket = true continue } if afterDescent { buf = append(buf, '.') } buf = frag.Append(buf, bracket, i == 0 || afterDescent) _, afterDescent = frag.(Descent) afterDescent = afterDescent && !bracket }",
+      "if afterDescent { buf = append(buf, '.') }", "return buf"] ∧
+    JpParens.exprAppendLoopHead = "for i, frag := range x" ∧
+    JpParens.exprAppendLoop = ["if _, ok := frag.(Bracket); ok { bracket = true continue }",
+      "if afterDescent { buf = append(buf, '.') }",
+      "buf = frag.Append(buf, bracket, i == 0 || afterDescent)",
+      "_, afterDescent = frag.(Descent)",
+      "afterDescent = afterDescent && !bracket"] ∧
+    JpParens.descentAppendBody =
+      ["if bracket { buf = append(buf, \"[..]\"...) } else { buf = append(buf, '.') }", "return buf"] ∧
+    JpParens.bracketAppendBody = ["return buf"] ∧
+    JpParens.wildcardAppendBody =
+      ["if bracket || f == '#' { buf = append(buf, \"[*]\"...) } else { if !first { buf = append(buf, '.') } buf = append(buf, '*') }",
+       "return buf"] ∧
+    JpParens.childAppendBody =
+      ["if bracket || !f.tokenOk() { buf = append(buf, '[') buf = AppendString(buf, string(f), '\\'') buf = append(buf, ']') } else { if !first { buf = append(buf, '.') } buf = append(buf, string(f)...) }",
+       "return buf"] :=
+  ⟨rfl, rfl, rfl, rfl, rfl, rfl, rfl⟩
+
 end OjgVerif.JPText
